@@ -7,7 +7,7 @@ open Dask.NF
 
 /-- decode a value:
   `(int 5) (bool true) (float "1.5") (str "a") (bytes (1 2)) (none) (atom "r") (list v…) (tuple v…)
-   (dict (k v)…) (set v…) (arr0 v "dtype") (ndarray "dtype" (shape…) (strides…) off (buf…)) (objarr (shape…) ("a" …))` -/
+   (dict (k v)…) (set v…) (arr0 v "dtype") (ndarray "dtype" (shape…) (strides…) off (buf…)) (objarr (shape…) ((code points…) …))` -/
 partial def decVal : SExp → Option Val
   | .list [.sym "int", .int i] => some (.int i)
   | .list [.sym "bool", b] => do pure (.bool (← b.toBool?))
@@ -28,7 +28,7 @@ partial def decVal : SExp → Option Val
   | .list [.sym "ndarray", .str dt, shape, strides, .int off, buf] => do
     pure (.ndarray dt (← shape.toNats?) (← strides.toInts?) off (← buf.toNats?))
   | .list [.sym "objarr", shape, .list elems] => do
-    pure (.objarr (← shape.toNats?) (← elems.mapM SExp.toStr?))
+    pure (.objarr (← shape.toNats?) (← elems.mapM SExp.toNats?))
   | _ => none
 
 /-- `(tokpre v…)` ↦ the string fed to md5 by `tokenize(v…)` -/
